@@ -288,6 +288,15 @@ pub fn run(ctx: &Ctx) -> CheckResult {
             }
         }
     }
+    // the size a stat call reports is a hint, not the length of the source: 0 (the script arrives through
+    // a pipe-like file) and 8 TiB (sparse file) on every stat/fstat of the compile, for one scenario per
+    // format class (all of them in thorough); with size 0 the output must be the fault-free output
+    for (_cls, idxs) in &by_class {
+        let take: Vec<usize> = if quick { idxs.iter().copied().take(1).collect() } else { idxs.clone() };
+        for i in take {
+            jobs.push(FaultJob { base: bases[i].clone(), step: 0, space: FaultSpace { read_side: false, write_side: false, meta_side: true, budgets: Budgets::Boundaries, seed: ctx.seed }, noise: false, max_variants: 0 });
+        }
+    }
     let camp = run_fault_campaign(ctx, &jobs);
     stats.merge(camp.stats);
     findings.extend(camp.findings);
